@@ -107,7 +107,7 @@ PROPS = {
         # the property fixes which batches / blocks are accepted: an input on which the implementation accepts what the
         # proved model rejects (or the other way round) is an input on which the property fails
         "verdict_is_spec": True,
-        "modules": ["C02", "C02Hist"],
+        "modules": ["C02", "C02Hist", "CodecTx"],
         "streams": [{"name": "apply", "quick": 180, "thorough": 7200}, {"name": "chain", "quick": 75, "thorough": 2400},
                     # "unlocked": spends of staked coins around the epoch boundaries of their stakes (fabricated histories)
                     {"name": "stake", "quick": 90, "thorough": 3200}],
@@ -116,7 +116,7 @@ PROPS = {
         "assumptions": ["faucet marker ids are disjoint from transaction hashes (domain-separated keyed hash) — hypothesis MarkersApart of C02_exact"],
     },
     "C03": {
-        "modules": ["C03", "C03Seq", "C03Sched"],
+        "modules": ["C03", "C03Seq", "C03Sched", "CodecTx"],
         "streams": [{"name": "apply", "quick": 135, "thorough": 4800, "rayon": [1, 4, 2, 16]}, {"name": "chain", "quick": 60, "thorough": 2400, "rayon": [1, 3]},
                     {"name": "mint", "quick": 180, "thorough": 4800}],
         "projection": "batch_all",
@@ -139,7 +139,7 @@ PROPS = {
         # the property fixes which batches / blocks are accepted: an input on which the implementation accepts what the
         # proved model rejects (or the other way round) is an input on which the property fails
         "verdict_is_spec": True,
-        "modules": ["C05", "C05Hist", "PinC05", "Codec", "CodecTie"],
+        "modules": ["C05", "C05Hist", "PinC05", "Codec", "CodecTie", "CodecTx"],
         "streams": [{"name": "apply", "quick": 180, "thorough": 7200}, {"name": "seal", "quick": 90, "thorough": 3200}, {"name": "weight", "quick": 200, "thorough": 9000},
                     # hostile mutations that bear on fees: covenants listed several times whose weights approach or pass a u128
                     {"name": "hostile", "quick": 100, "thorough": 3200},
